@@ -114,6 +114,37 @@ def soup_cases(draw, tier):
     return {"kind": kind, "text": "\n".join(lines)}
 
 
+def fuzz_driver(tier, widx, nworkers, vseed, workdir):
+    """Second driver of the token-soup oracle: atheris (libFuzzer) with coverage feedback from the library, one campaign per worker
+    (even workers start from an empty corpus, odd workers from a few small valid inputs)."""
+    import hashlib
+    import json
+    import os
+    import subprocess
+    import sys
+    root = os.path.dirname(os.path.dirname(os.path.abspath(__file__)))
+    env = dict(os.environ)
+    probe = subprocess.run([sys.executable, "-c", "import atheris"], env=env, capture_output=True)
+    if probe.returncode != 0:
+        return {"evaluations": 0, "classes": {"fuzz_skipped_atheris_missing": 1}}
+    out = os.path.join(workdir, "fuzz-w%d" % widx)
+    runs = 6000 if tier == "quick" else 250000
+    args = [sys.executable, os.path.join(root, "fuzz", "c17_fuzz.py"), out, str(runs), str(vseed * 1000 + widx + 1)] + (["seeded"] if widx % 2 else [])
+    subprocess.run(args, env=env, stdout=subprocess.DEVNULL, stderr=subprocess.DEVNULL, timeout=3000)
+    with open(os.path.join(out, "stats.json"), encoding="utf8") as f:
+        st_ = json.load(f)
+    fails = []
+    for fl in st_["failures"]:
+        with open(fl["file"], encoding="utf8") as f:
+            rec = json.load(f)
+        fails.append({"bucket": rec["bucket"], "case": rec["case"], "msg": "[atheris] " + rec["msg"], "details": {}})
+    digs = [hashlib.sha1(("fuzz-%d-%d" % (widx, i)).encode()).hexdigest()[:16] for i in range(st_["distinct_returned"])]
+    return {"evaluations": st_["executions"], "nt_digests": digs, "failures": fails,
+            "samples": [{"clause": "token_soup_fuzz", "case": c, "outcome": "parser returned a valid object"} for c in st_.get("samples", [])[:1]],
+            "classes": {"fuzz_executions": st_["executions"], "fuzz_returned_object": st_["returned_object"], "fuzz_rejected": st_["rejected"],
+                        "fuzz_corpus_seeded" if widx % 2 else "fuzz_corpus_empty": 1}}
+
+
 CLAUSES = [
     Clause("wellformed", wf_cases, run_wellformed, quick=1500, thorough=10000,
            rule="known specs of the four kinds rendered by an independent renderer in generated layouts (line order, omitted optional declarations, default eps/blank, "
@@ -126,5 +157,9 @@ CLAUSES = [
     Clause("token_soup", soup_cases, run_soup, quick=1500, thorough=15000,
            rule="perturbed well-formed texts and lines assembled from keywords, names, labels and junk; whenever a parser returns, the object satisfies the class "
                 "invariants of its kind (own predicates); non-trivial: the parser returned an object"),
+    Clause("token_soup_fuzz", None, run_soup, quick=0, thorough=0, external=fuzz_driver,
+           rule="the same oracle as token_soup inside an atheris/libFuzzer target (coverage feedback from the instrumented gambatools package; bytes decoded into a parser kind and either "
+                "raw UTF-8 text or one token per byte); one campaign per worker (6000 executions in the quick tier, 250000 in the thorough tier), half of them starting from an empty "
+                "corpus, half from the shipped example files; non-trivial: distinct inputs for which a parser returned an object (counted by the target)"),
 ]
 KNOWN_PREDICATES = {}
